@@ -203,7 +203,11 @@ fn ins<T: ZRes>(w: &mut World, v: u32) {
     w.insert(T::mk(v));
 }
 fn get<T: ZRes>(w: &World) -> Option<u32> {
-    w.try_fetch::<T>().map(|x| x.val())
+    // read past the borrow flag (quiescent point, single thread): a cell that the code under test
+    // left borrowed must not make the harness panic
+    unsafe { w.try_fetch_internal(ResourceId::new::<T>()) }
+        .and_then(|c| unsafe { (**c.as_ptr()).downcast_ref::<T>() })
+        .map(|x| x.val())
 }
 fn tyname<T: ZRes>() -> &'static str {
     std::any::type_name::<T>()
@@ -269,12 +273,30 @@ pub struct Ops {
     pub exec: fn(&mut World),
 }
 
+/// Payload of the harness's own panics (execution contexts "value dropped by unwinding" and "fetch
+/// issued from a destructor that runs because of a panic").
+pub struct Deliberate;
+
+thread_local! {
+    /// classes observed while the value was alive, stashed before a deliberate panic
+    static LAST_ALIVE: RefCell<Option<Vec<u8>>> = RefCell::new(None);
+    /// make `SysProbe::in_run` panic after probing (the system's data is then dropped by unwinding)
+    static PANIC_IN_RUN: RefCell<bool> = RefCell::new(false);
+}
+pub const UNWIND: u8 = 0x10;
+
+fn stash_and_panic(cls: Vec<u8>) -> ! {
+    LAST_ALIVE.with(|l| *l.borrow_mut() = Some(cls));
+    std::panic::panic_any(Deliberate)
+}
+
 pub fn decl_of<'a, T: SystemData<'a>>() -> Decl {
     (T::reads(), T::writes())
 }
 
 pub fn fetch_of<'a, T: SystemData<'a>>(w: &'a World, via: u8, ids: &[ResourceId]) -> Vec<u8> {
-    let d: T = match via {
+    let unwind = via & UNWIND != 0;
+    let d: T = match via & 0x0f {
         0 => T::fetch(w),
         1 => w.system_data::<T>(),
         _ => {
@@ -283,6 +305,10 @@ pub fn fetch_of<'a, T: SystemData<'a>>(w: &'a World, via: u8, ids: &[ResourceId]
         }
     };
     let cls = classify(w, ids);
+    if unwind {
+        // the value is alive here: it is dropped by the unwinding of this frame
+        stash_and_panic(cls);
+    }
     drop(d);
     cls
 }
@@ -320,7 +346,12 @@ impl SysProbe {
         if !self.world.is_null() {
             // the world is only shared-borrowed while a system runs; this is the only thread
             let w = unsafe { &*self.world };
-            self.seen = Some(classify(w, &self.ids));
+            let cls = classify(w, &self.ids);
+            if PANIC_IN_RUN.with(|f| *f.borrow()) {
+                // `System::run` panics while it owns the data: dropped by unwinding through run_now
+                stash_and_panic(cls);
+            }
+            self.seen = Some(cls);
         }
     }
 }
@@ -464,6 +495,7 @@ pub struct Stats {
     pub setup_runs: usize,
     pub exec_runs: usize,
     pub second_pass: usize,
+    pub fetch_ctx: [usize; 3],
     pub twin_blocks: usize,
     pub fetch_ok: usize,
     pub fetch_missing: usize,
@@ -545,7 +577,19 @@ struct FetchObs {
     msg: String,
 }
 
-fn do_fetch(ops: &Ops, slots: &[&'static Slot], ids: &[ResourceId], present: &[bool], held: &[u8], via: usize, rng: &mut StdRng) -> FetchObs {
+struct InDrop<'x>(&'x mut dyn FnMut());
+impl Drop for InDrop<'_> {
+    fn drop(&mut self) {
+        (self.0)()
+    }
+}
+
+pub const CTX: [&str; 3] = ["normal", "dropped_by_unwinding", "fetched_in_drop_while_unwinding"];
+
+/// ctx 0: normal control flow; 1: the fetched value is dropped by an unwinding (caught) panic;
+/// 2: the whole fetch is issued from a destructor that runs because of a (caught) panic.
+/// The expected observation is the same in all three.
+fn do_fetch(ops: &Ops, slots: &[&'static Slot], ids: &[ResourceId], present: &[bool], held: &[u8], via: usize, ctx: usize, rng: &mut StdRng) -> FetchObs {
     let vals: Vec<u32> = present.iter().map(|p| if *p { rng.gen_range(1..DEFAULT_BASE) } else { 0 }).collect();
     let w = mk_world(slots, &vals);
     // borrows held by somebody else
@@ -561,16 +605,39 @@ fn do_fetch(ops: &Ops, slots: &[&'static Slot], ids: &[ResourceId], present: &[b
             guards.push(Held::_W(cell.try_borrow_mut().expect("pre-borrow")));
         }
     }
-    let r = catch_unwind(AssertUnwindSafe(|| {
-        if via == 3 {
-            (ops.sys_run)(&w, ids)
-        } else {
-            (ops.fetch)(&w, via as u8, ids)
+    LAST_ALIVE.with(|l| *l.borrow_mut() = None);
+    PANIC_IN_RUN.with(|f| *f.borrow_mut() = ctx == 1);
+    let mut the_fetch = || {
+        catch_unwind(AssertUnwindSafe(|| {
+            if via == 3 {
+                (ops.sys_run)(&w, ids)
+            } else {
+                (ops.fetch)(&w, via as u8 | if ctx == 1 { UNWIND } else { 0 }, ids)
+            }
+        }))
+    };
+    let r = if ctx == 2 {
+        let mut res = None;
+        {
+            let mut body = || res = Some(the_fetch());
+            let _ = catch_unwind(AssertUnwindSafe(|| {
+                let _g = InDrop(&mut body);
+                std::panic::panic_any(Deliberate)
+            }));
         }
-    }));
+        res.expect("destructor ran")
+    } else {
+        the_fetch()
+    };
+    PANIC_IN_RUN.with(|f| *f.borrow_mut() = false);
     let after = classify(&w, ids);
     let obs = match r {
         Ok(alive) => FetchObs { out: "ok", pres: 0, alive, after, msg: String::new() },
+        Err(p) if p.is::<Deliberate>() => {
+            // our own panic: the fetch had succeeded, the value was dropped by the unwinding
+            let alive = LAST_ALIVE.with(|l| l.borrow_mut().take()).unwrap_or_default();
+            FetchObs { out: "ok", pres: 0, alive, after, msg: String::new() }
+        }
         Err(p) => {
             let msg = panic_text(p);
             let (kind, res) = classify_panic(slots, &msg);
@@ -689,8 +756,10 @@ pub fn run_case_with(ops: &Ops, d: &CaseDesc, slots: Vec<&'static Slot>, rng: &m
     }
     for (k, (present, held, exp)) in fetch_runs.iter().enumerate() {
         let via = if exp.is_some() { (k + d.id as usize) % 4 } else { rng.gen_range(0..4) };
-        let o = do_fetch(ops, &slots, &ids, present, held, via, rng);
+        let ctx = if exp.is_some() { (k / 4 + k + d.id as usize) % 3 } else { *[0, 0, 1, 1, 2, 2, 2].choose(rng).unwrap() };
+        let o = do_fetch(ops, &slots, &ids, present, held, via, ctx, rng);
         st.fetch_runs += 1;
+        st.fetch_ctx[ctx] += 1;
         match o.out {
             "ok" => st.fetch_ok += 1,
             "missing" => st.fetch_missing += 1,
@@ -700,7 +769,7 @@ pub fn run_case_with(ops: &Ops, d: &CaseDesc, slots: Vec<&'static Slot>, rng: &m
         if held.iter().any(|h| *h != 0) {
             st.with_held += 1;
         }
-        let mut e = json!({"ev":"fetch","via":FETCH_VIA[via],"present":present,"held":held,"out":o.out,"pres":o.pres,
+        let mut e = json!({"ev":"fetch","via":FETCH_VIA[via],"ctx":CTX[ctx],"present":present,"held":held,"out":o.out,"pres":o.pres,
                            "alive":o.alive,"after":o.after});
         if o.out == "other" {
             e["msg"] = json!(o.msg.chars().take(200).collect::<String>());
